@@ -132,7 +132,8 @@ theorem runInv_step {S : Nat} {cs : List (List Nat)} {st st' : EvState} {ev : Li
     rw [hr] at hshape
     obtain ⟨hev, _, hcs⟩ := hshape
     exfalso
-    unfold evtadapt at h
+    rw [evtadapt_eq_core hne] at h
+    unfold evtadaptCore at h
     rw [hev] at h
     cases cs with
     | nil => exact hcs rfl
@@ -143,7 +144,8 @@ theorem runInv_step {S : Nat} {cs : List (List Nat)} {st st' : EvState} {ev : Li
     rw [hr] at hshape
     simp only [if_true] at hshape
     obtain ⟨hev, hcs⟩ := hshape
-    unfold evtadapt at h
+    rw [evtadapt_eq_core hne] at h
+    unfold evtadaptCore at h
     rw [hev] at h
     simp only [hr, Bool.not_true, Bool.false_and, Bool.false_eq_true, if_false] at h
     cases hrm : removeAll (remainder S cs) ev with
@@ -212,7 +214,8 @@ theorem runInv_rejects {S : Nat} {cs : List (List Nat)} {st : EvState} {ev : Lis
   | false =>
     rw [hr] at hshape
     obtain ⟨hev, _, hcs⟩ := hshape
-    unfold evtadapt
+    rw [evtadapt_eq_core (by intro h0; subst h0; simp at hne)]
+    unfold evtadaptCore
     rw [hev]
     cases cs with
     | nil => exact absurd rfl hcs
@@ -221,7 +224,8 @@ theorem runInv_rejects {S : Nat} {cs : List (List Nat)} {st : EvState} {ev : Lis
     rw [hr] at hshape
     simp only [if_true] at hshape
     obtain ⟨hev, _⟩ := hshape
-    unfold evtadapt
+    rw [evtadapt_eq_core (by intro h0; subst h0; simp at hne)]
+    unfold evtadaptCore
     rw [hev]
     simp only [hr, Bool.not_true, Bool.false_and, Bool.false_eq_true, if_false]
     cases hrm : removeAll (remainder S cs) ev with
